@@ -335,7 +335,13 @@ def comm_ops(desc: dict[str, Any]) -> tuple[dict[Any, list[dict[str, Any]]],
         if it["kind"] == "send":
             sends.setdefault((it["rank"], it["dest"], repr(it["tag"])), []).append(it)
         elif it["kind"] == "recv":
-            recvs.setdefault((it["src"], it["rank"], repr(it["tag"])), []).append(it)
+            lst = recvs.setdefault((it["src"], it["rank"], repr(it["tag"])), [])
+            # value semantics: structurally identical receive nodes ARE one node (one
+            # receive); only distinguishable ones (other shape / tags) are duplicates
+            ident = (tuple(it["shape"]), it["id"] if it.get("variant") else None)
+            if not any((tuple(x["shape"]), x["id"] if x.get("variant") else None) == ident
+                       for x in lst):
+                lst.append(it)
     return sends, recvs
 
 
